@@ -348,6 +348,25 @@ def dom(t, env, big=True, k=2, depth=2, cap=48, _stack=()):
                         combo = list(rest)
                         combo[i] = bv
                         out.append({mm.name: v for mm, v in zip(mems, combo) if v is not ABSENT})
+            # values of an EARLIER VERSION of the type: every extension addition from some point
+            # on is absent although it is not OPTIONAL (what a relay holds after decoding an older
+            # message; DESIGN 1.3 "second class").  An encoder may reject them with its EncodeError;
+            # if it produces bytes, the oracles apply.
+            nroot = len(t.root)
+            nadd = len(mems) - nroot - len(t.root2)
+            if nadd and any(m.q == 'M' for m in mems[nroot:nroot + nadd]):
+                starts, pos = [], 0         # cut only between additions, never inside a [[group]]
+                for a in t.adds:
+                    starts.append(pos)
+                    pos += len(a.members) if isinstance(a, Grp) else 1
+                for cut in starts:
+                    if not any(m.q == 'M' for m in mems[nroot + cut:nroot + nadd]):
+                        continue
+                    for rest in (base, present):
+                        combo = list(rest)
+                        for j in range(nroot + cut, nroot + nadd):
+                            combo[j] = ABSENT
+                        out.append({mm.name: v for mm, v in zip(mems, combo) if v is not ABSENT})
             out = _dedupe(out)
         return out
     if isinstance(t, Cho):
